@@ -19,7 +19,7 @@ for d in sorted(glob.glob(os.path.join(ROOT, 'seeded', '*'))):
 out = [rd('design/00_head.md')]
 # ---- section 0
 s0 = ['## 0. Status at a glance\n']
-s0.append('| property | claimed | theorems (obligations) | open findings | fixed findings | seeded changes caught |')
+s0.append('| property | claimed | theorems (obligations) | open findings | fixed findings | seeded changes caught (first trial / after strengthening / total) |')
 s0.append('|---|---|---|---|---|---|')
 for p in props:
     i = p['id']
@@ -32,8 +32,12 @@ for p in props:
     of = sum(1 for k in findings if k['property'] == i and k.get('status', 'open') == 'open')
     ff = sum(1 for k in findings if k['property'] == i and k.get('status') == 'fixed')
     sd = [m for m in seeded if m.get('property') == i]
-    caught = sum(1 for m in sd if 'caught' in str(m.get('verified_by_integrator', {}).get('result', '')) and not str(m.get('verified_by_integrator', {}).get('result', '')).startswith('missed'))
-    s0.append('| %s %s | %s | %s | %d | %d | %s |' % (i, p['title'][:60], 'yes' if i in claimed else 'no (see MANIFEST not_applicable)', ob, of, ff, ('%d/%d' % (caught, len(sd))) if sd else '-'))
+    def _res(m):
+        return str(m.get('verified_by_integrator', {}).get('result', ''))
+    first = sum(1 for m in sd if _res(m).startswith('caught'))
+    now = sum(1 for m in sd if 'caught' in _res(m) and 'pending' not in _res(m))
+    caught = '%d at first trial, %d now, of %d' % (first, now, len(sd))
+    s0.append('| %s %s | %s | %s | %d | %d | %s |' % (i, p['title'][:60], 'yes' if i in claimed else 'no (see MANIFEST not_applicable)', ob, of, ff, caught if sd else '-'))
 out.append('\n'.join(s0) + '\n\n---------------------------------------------------------------------------\n\n')
 for part in ['design/01_why.md', 'design/02_architecture.md', 'design/04_conventions.md', 'design/05_violations.md', 'design/06_trusted.md', 'design/07_hooks.md']:
     if os.path.exists(os.path.join(ROOT, part)):
